@@ -279,6 +279,8 @@ def impl_solve(prob, cfg, limit=None):
         return "err", "stack-overflow" if "stack overflow" in str(e) else "oob", None
     except OverflowError:
         return "err", "oob", None
+    except ValueError as e:
+        return "err", "refused", None
 
 
 def impl_optimize(prob, cfg, v, minimize):
